@@ -19,6 +19,7 @@ pub enum SF {
     C15,
     C14,
     C08,
+    C07,
 }
 
 #[derive(Clone, Debug, Hash, PartialEq, Serialize, Deserialize)]
@@ -52,6 +53,17 @@ fn conc_candidates(focus: SF) -> &'static Vec<u32> {
             static C: OnceLock<Vec<u32>> = OnceLock::new();
             C.get_or_init(|| static_corpus().funcs.iter().filter(|d| matches!(d.family, "concu" | "conc")).map(|d| d.id).collect())
         }
+        SF::C07 => {
+            static E: OnceLock<Vec<u32>> = OnceLock::new();
+            E.get_or_init(|| {
+                static_corpus()
+                    .funcs
+                    .iter()
+                    .filter(|d| d.family == "grid" && d.flavour != Flavour::Thread && matches!(d.effective_policy(), Policy::Lru | Policy::Fifo) && d.limit == Some(3) && d.ttl.is_none() && d.max_memory.is_none())
+                    .map(|d| d.id)
+                    .collect()
+            })
+        }
         SF::C08 => {
             // hit counts are observable where only residents compete on overflow: the async cache
             static D: OnceLock<Vec<u32>> = OnceLock::new();
@@ -65,6 +77,26 @@ fn conc_candidates(focus: SF) -> &'static Vec<u32> {
             })
         }
     }
+}
+
+/// C07 under concurrency: limit 3, the prefix stores k0 then k1 (and may hit them); one thread
+/// hits one of the two, another stores k2 into the free slot.  The other prefix key is then the
+/// least recently used entry under every interleaving (its last use precedes the threads) and
+/// k0 is the oldest store: the next overflowing store evicts exactly that entry.
+fn decode_c07(d: &mut Dec, _tier: Tier) -> SchedCase {
+    let cands = conc_candidates(SF::C07);
+    let fid = cands[d.choose16(cands.len())];
+    let mut prefix: Vec<(u8, u8)> = vec![(0, 0), (0, 1)];
+    for _ in 0..d.choose(3) {
+        prefix.push((0, d.choose(2) as u8));
+    }
+    let h = d.choose(2) as u8;
+    let mut t_hit = vec![SOp::Call { f: 0, k: h }];
+    if d.chance(1, 3) {
+        t_hit.push(SOp::Call { f: 0, k: h });
+    }
+    let threads = if d.chance(1, 2) { vec![t_hit, vec![SOp::Call { f: 0, k: 2 }]] } else { vec![vec![SOp::Call { f: 0, k: 2 }], t_hit] };
+    SchedCase { fns: vec![fid], prefix, age_prefix_ns: 0, threads, decisions: d.rest().to_vec() }
 }
 
 /// C08 under concurrency: the prefix fills the cache and gives every key but the first an
@@ -102,6 +134,9 @@ pub fn decode(bytes: &[u8], focus: SF, tier: Tier) -> SchedCase {
     if focus == SF::C08 {
         return decode_c08(&mut d, tier);
     }
+    if focus == SF::C07 {
+        return decode_c07(&mut d, tier);
+    }
     let corpus = static_corpus();
     let cands = conc_candidates(focus);
     let nf = if d.chance(1, 4) { 2 } else { 1 };
@@ -130,7 +165,7 @@ pub fn decode(bytes: &[u8], focus: SF, tier: Tier) -> SchedCase {
         SF::C17 | SF::C18 => [12, 4, 2, 4, 1, 1, 1],
         SF::C03 | SF::C14 => [10, 0, 0, 0, 0, 0, 0],
         SF::C15 => [12, 0, 0, 0, 2, 0, 1],
-        SF::C08 => unreachable!(),
+        SF::C08 | SF::C07 => unreachable!(),
     };
     let mut threads = Vec::new();
     for _ in 0..nt {
@@ -627,6 +662,59 @@ pub fn judge(case: &SchedCase, focus: SF, explicit: Option<bool>) -> CaseOut {
                 out.classes.push("same_tuple_calls_overlap");
             }
         }
+        SF::C07 => {
+            let d = descs[0];
+            let key_of_idx = |k: u8| key_of(d, None, &key_args(k));
+            let hit_key = run.recs.iter().find_map(|r| match &r.op {
+                SOp::Call { k, .. } if *k < 2 => Some(*k),
+                _ => None,
+            });
+            let clean = run.recs.iter().all(|r| match &r.op {
+                SOp::Call { k, .. } if *k < 2 => r.executed == 0,
+                SOp::Call { .. } => r.executed == 1,
+                _ => true,
+            });
+            let before = list_keys(d.cache_name);
+            let want: BTreeSet<String> = [0u8, 1, 2].iter().map(|k| key_of_idx(*k)).collect();
+            if let (Some(h), true, true) = (hit_key, clean, before.as_ref() == Some(&want)) {
+                let lru = d.effective_policy() == Policy::Lru;
+                // the prefix key that was not touched by the threads was last used before them
+                let expected_victim = if lru { 1 - h } else { 0 };
+                // without the concurrent hit the victim would have been another entry
+                let last_prefix_use = |k: u8| case.prefix.iter().rposition(|(_, pk)| *pk == k).unwrap_or(0);
+                let lru_before = if last_prefix_use(0) < last_prefix_use(1) { 0u8 } else { 1 };
+                out.nontrivial = lru && lru_before == h;
+                if out.nontrivial {
+                    out.classes.push("concurrent_hit_changes_the_victim");
+                }
+                let (_, ex) = plain_call(&corpus, d, 60, 9000);
+                let after = list_keys(d.cache_name).unwrap_or_default();
+                if ex == 1 && after.contains(&key_of_idx(60)) {
+                    let evicted: Vec<u8> = [0u8, 1, 2].iter().copied().filter(|k| !after.contains(&key_of_idx(*k))).collect();
+                    if let [v] = evicted[..] {
+                        if v != expected_victim {
+                            out.violation = Some(Violation {
+                                signature: format!("C07:{}:{}:concurrent-recency", fl, d.effective_policy().name()),
+                                clause: "concurrent-recency".into(),
+                                step: 0,
+                                expected: format!(
+                                    "{} ({}): prefix {:?}, then a thread hit key index {} while another stored key index 2: key index {} is the {} entry under every interleaving and is evicted by the next overflowing store",
+                                    d.fn_name,
+                                    d.attr_text,
+                                    case.prefix.iter().map(|(_, k)| *k).collect::<Vec<_>>(),
+                                    h,
+                                    expected_victim,
+                                    if lru { "least recently used" } else { "oldest" }
+                                ),
+                                observed: format!("key index {} was evicted; the cache holds {:?}", v, after),
+                            });
+                        }
+                    }
+                }
+            } else {
+                out.classes.push("concurrent_phase_changed_the_store");
+            }
+        }
         SF::C08 => {
             let d = descs[0];
             let cap = d.limit.unwrap_or(2);
@@ -730,6 +818,7 @@ sf_fns!(run_c03, desc_c03, SF::C03);
 sf_fns!(run_c15, desc_c15, SF::C15);
 sf_fns!(run_c14, desc_c14, SF::C14);
 sf_fns!(run_c08, desc_c08, SF::C08);
+sf_fns!(run_c07, desc_c07, SF::C07);
 
 pub const SCHED_LEN: usize = 40 + 160;
 
@@ -865,6 +954,8 @@ pub fn exhaustive_stage(focus: SF, tier: Tier, _seed: u64) -> crate::infra::Cust
         canonical_programs(tier)
     } else if focus == SF::C08 {
         canonical_hit_programs()
+    } else if focus == SF::C07 {
+        canonical_recency_programs()
     } else {
         canonical_lookup_programs(focus)
     };
@@ -880,6 +971,7 @@ pub fn exhaustive_stage(focus: SF, tier: Tier, _seed: u64) -> crate::infra::Cust
         SF::C15 => "C15",
         SF::C14 => "C14",
         SF::C08 => "C08",
+        SF::C07 => "C07",
     };
     // spread programs over worker threads (each run is a forked child)
     let progs = Arc::new(progs);
@@ -949,6 +1041,26 @@ pub fn exhaustive_c03(t: Tier, s: u64) -> crate::infra::CustomOut {
 pub fn exhaustive_c14(t: Tier, s: u64) -> crate::infra::CustomOut {
     exhaustive_stage(SF::C14, t, s)
 }
+pub fn exhaustive_c07(t: Tier, s: u64) -> crate::infra::CustomOut {
+    exhaustive_stage(SF::C07, t, s)
+}
+
+/// Canonical programs for C07 under concurrency (limit 3): k0, k1 stored; a hit of k0 (or k1)
+/// against a store of k2.
+pub fn canonical_recency_programs() -> Vec<(String, SchedCase)> {
+    let corpus = static_corpus();
+    let mut v = Vec::new();
+    for id in conc_candidates(SF::C07) {
+        let d = corpus.by_id(*id);
+        let fln = if d.flavour == Flavour::Global { "sync" } else { "async" };
+        let c = |k: u8| SOp::Call { f: 0, k };
+        let mk = |name: &str, prefix: Vec<(u8, u8)>, threads: Vec<Vec<SOp>>| (format!("{}:{}:{}", fln, d.fn_name, name), SchedCase { fns: vec![d.id], prefix, age_prefix_ns: 0, threads, decisions: vec![] });
+        v.push(mk("hit-oldest||store", vec![(0, 0), (0, 1)], vec![vec![c(0)], vec![c(2)]]));
+        v.push(mk("store||hit-newer-after-oldest-was-hit", vec![(0, 0), (0, 1), (0, 0)], vec![vec![c(2)], vec![c(1), c(1)]]));
+    }
+    v
+}
+
 pub fn exhaustive_c08(t: Tier, s: u64) -> crate::infra::CustomOut {
     exhaustive_stage(SF::C08, t, s)
 }
